@@ -39,11 +39,17 @@ def one_history(rep, rng, dev, hid):
         dt_max = dt_init                  # adaptivity on but no room to grow: refusals are still retried with smaller steps
     if dt_init < 1e-6:
         dt_max = dt_init * 10 ** rng.uniform(6.5, 8.5)      # the 1e-10 floor of the documented rule decides the proposal
+    if hid % 15 == 7:
+        # regime fixed by construction (not left to the draw): adaptive, tiny first step, dt_max / dt_init = 10^8.2 .. 10^9, so that
+        # the proposal after the warm-up window is dt_init / 1e-10 halved with dt - unclipped, decided by the documented floor alone
+        adaptive = True
+        dt_init = 10 ** rng.uniform(-10, -8)
+        dt_max = dt_init * 10 ** rng.uniform(8.2, 9.0)
     window = rng.randint(1, 12)
     mult = rng.choice([0.25, 0.5, 0.1, 0.75, 0.33])
     max_retries = rng.randint(0, 5)
     nsteps = rng.randint(window + 3, window + 14)
-    screening = adaptive and rng.random() < 0.25
+    screening = adaptive and rng.random() < 0.25 and hid % 15 != 7
     if screening and hid % 2 == 0:
         # feature pair adaptive + screening with room to grow: the proposal is then NOT clipped, so the window (which counts solve
         # steps, whatever the number of self-consistency iterations inside each) is visible in the step sequence
